@@ -11,6 +11,7 @@
 #include <bxdecay0/bb_utils.h>
 #include "stream.hpp"
 #include <algorithm>
+#include <link.h>
 #include <chrono>
 #include <cmath>
 #include <csignal>
@@ -164,6 +165,38 @@ struct RefSide {
 };
 
 // ---------------------------------------------------------------- port side
+// address range of the shared object that holds the library (found through one of its symbols)
+static int lib_range_cb(struct dl_phdr_info * info, size_t, void * data)
+{
+  uintptr_t * out = (uintptr_t *)data; // [0]=probe address, [1]=lo, [2]=hi
+  for (int k = 0; k < info->dlpi_phnum; k++) {
+    const auto & ph = info->dlpi_phdr[k];
+    if (ph.p_type != PT_LOAD) continue;
+    uintptr_t a = info->dlpi_addr + ph.p_vaddr, b = a + ph.p_memsz;
+    if (out[0] >= a && out[0] < b) {
+      // whole object: min/max over its PT_LOAD segments
+      uintptr_t lo = ~(uintptr_t)0, hi = 0;
+      for (int j = 0; j < info->dlpi_phnum; j++) {
+        const auto & q = info->dlpi_phdr[j];
+        if (q.p_type != PT_LOAD) continue;
+        lo = std::min(lo, (uintptr_t)(info->dlpi_addr + q.p_vaddr));
+        hi = std::max(hi, (uintptr_t)(info->dlpi_addr + q.p_vaddr + q.p_memsz));
+      }
+      out[1] = lo;
+      out[2] = hi;
+      return 1;
+    }
+  }
+  return 0;
+}
+static void lib_range(uintptr_t & lo, uintptr_t & hi)
+{
+  uintptr_t d[3] = {(uintptr_t)(void *)&bxdecay0::genbbsub, 0, ~(uintptr_t)0};
+  dl_iterate_phdr(lib_range_cb, d);
+  lo = d[1];
+  hi = d[2];
+}
+
 struct PortRand : bxdecay0::i_random {
   vx::Source s;
   size_t i = 0;
@@ -173,12 +206,18 @@ struct PortRand : bxdecay0::i_random {
   {
     if (i >= horizon) throw HorizonHit();
     if (ctx) {
-      // site context = three-deep return-address chain (library and harness keep frame pointers)
+      // site context = return-address chain, eight frames deep (library and harness keep frame pointers): deep
+      // enough to tell apart the call sites of the helpers (particle <- electron <- nucltransKLM <- nuclide scheme)
+      // only frames inside the library count: harness frames above them depend on who called the shot
+      static uintptr_t lib_lo = 0, lib_hi = 0;
+      if (!lib_hi) lib_range(lib_lo, lib_hi);
       uint32_t h = 2166136261u;
       void ** fp = (void **)__builtin_frame_address(0);
-      for (int d = 0; d < 3 && fp; d++) {
+      for (int d = 0; d < 10 && fp; d++) {
         uintptr_t ra = (uintptr_t)fp[1];
-        h = (h ^ (uint32_t)(ra & 0xffffffffu)) * 16777619u;
+        if (ra < lib_lo || ra >= lib_hi) {
+          if (d > 0) break;
+        } else h = (h ^ (uint32_t)((ra - lib_lo) & 0xffffffffu)) * 16777619u;
         void ** nfp = (void **)fp[0];
         if (nfp <= fp || (uintptr_t)nfp - (uintptr_t)fp > (1u << 20)) break;
         fp = nfp;
